@@ -193,7 +193,7 @@ func runC19Race(ctx *core.Ctx) {
 		}
 		return
 	}
-	n := ctx.Pick(160, 3000)
+	n := ctx.Pick(96, 3000) // quick: 16 jobs of each of the six shapes, every goroutine count 2..16 at least once
 	for i := 0; i < n; i++ {
 		var job raceJob
 		job.Seed = ctx.Rng.Int63()
